@@ -1249,6 +1249,13 @@ pub(crate) fn format_trait(
             } else {
                 body_lo - BytePos(1)
             };
+            // The byte in front of the generics may be the last one of a white space character
+            // of several bytes: do not end inside it.
+            let mut hi_offset = (comment_hi - item.span.lo()).0 as usize;
+            while !item_snippet.is_char_boundary(hi_offset) {
+                hi_offset -= 1;
+            }
+            let comment_hi = item.span.lo() + BytePos(hi_offset as u32);
             let comment_lo = item.span.lo() + BytePos(lo as u32);
             if comment_lo < comment_hi {
                 match recover_missing_comment_in_span(
